@@ -173,7 +173,8 @@ def stepEffect (p : Params) (s : Sys) (e : Effect) (rest : List Effect) : Option
       if s.clipWaiting then some { s with pend := rest, clipWaiting := false, clipGot := s.clipGot ++ [v] }
       else match p.kinds.clipboard with
         | .blocking => none
-        | _ => none   -- waits for `clipTimeout`
+        | .nonblocking => some { s with pend := rest }   -- `select` with `default`: dropped when nobody is waiting
+        | .timeout => none   -- waits for `clipTimeout`
 
 /-- The transition relation as a partial function (`none` = label not enabled, `some (.error _)`
 = the goroutine panicked). -/
